@@ -76,6 +76,31 @@ def generate(rng, tier, index):
             ops.append({"op": "forget", "back": rng.randint(1, 3), "load_first": rng.random() < 0.6})
         else:
             ops.append({"op": "restart"})
+    if rng.random() < 0.35:
+        # a canonical motif first (create - use - delete - use, in each cache location), then the
+        # random history
+        def o(**kw):
+            base = {"op": "open", "use_cache": None, "create_cache": None, "rpc": rng.choice(rpcs),
+                    "spelling": "plain", "no_options_arg": False}
+            base.update(kw)
+            return base
+
+        img = rng.randrange(len(wp["images"]))
+        motifs = [
+            [o(create_cache=True), o(), {"op": "rm-user", "image": None}, o()],
+            [o(), o(create_cache=True), o(), o(use_cache=False)],
+            [o(rpc=1), o(rpc=n + 1, create_cache=True), o(rpc=2), o(rpc=None)],
+        ]
+        if local:
+            motifs += [
+                [{"op": "cli", "image": img, "rpc": None}, o(), {"op": "rm-adjacent", "image": None},
+                 o()],
+                [o(), {"op": "cli", "image": img, "rpc": 1}, o(), {"op": "rm-adjacent",
+                                                                   "image": img}, o()],
+                [o(create_cache=True), {"op": "cli", "image": img, "rpc": None}, o(),
+                 {"op": "rm-user", "image": None}, o(), {"op": "rm-adjacent", "image": None}, o()],
+            ]
+        ops = rng.choice(motifs) + ops[:6]
     return {"world": wp, "ops": ops}
 
 
